@@ -140,6 +140,14 @@ def run(check: Check) -> None:
             check.obligation("metadata.generated/ground", "refuted" if any("[factors not in sorted order]" not in t for t, _ in found) else "ground")
             for tag, msg in found:
                 check.violation(f"metadata::{tag}", f"({out} output) {formula!r}: {msg}", dict(p, tag=tag))
+    # cluster_by="numerical_factors" reorders the COLUMNS: term ranges follow them, every lookup still selects its own term's columns
+    for formula, out in itertools.product(("a + A + b + a:A", "A + a + B + b:B + a:A", "a + b + A + a:A + b:B + B", "0 + A + a + a:A:B + b"), ("pandas", "numpy", "sparse")):
+        p = {"kind": "c10_clustered", "formula": formula, "output": out}
+        bad = replays.run(p)
+        check.case(f"clustered:{formula}:{out}")
+        check.obligation("metadata.clustered/ground", "refuted" if bad else "ground")
+        if bad:
+            check.violation(f"metadata::clustered::{bad.split(':', 1)[0]}", bad, p)
     # two generated columns with the SAME name (a data column called 'a:b' next to the interaction a:b): every output type keeps both
     for formula, out in itertools.product(("`a:b` + a:b", "0 + a:b + `a:b`:A", "a*b + `a:b`"), ("pandas", "numpy", "sparse")):
         p = {"kind": "c10_dupnames", "formula": formula, "output": out}
